@@ -254,10 +254,7 @@ func runCheck(o *checkOpts) int {
 			if len(rp.obl.Using) > 0 {
 				extra = rp.obl.ctx.lemmaAxioms(rp.obl.Using, nil)
 			}
-			qs := []string{rp.obl.queryVariant(extra, 0)}
-			if len(rp.obl.ctx.recForms) > 0 {
-				qs = append(qs, rp.obl.queryVariant(extra, 1))
-			}
+			qs := []string{rp.obl.queryVariant(extra, 0), rp.obl.queryVariant(extra, 1)}
 			if o.dump != "" {
 				os.WriteFile(filepath.Join(o.dump, sanitize(rp.Name)+".smt2"), []byte(qs[0]), 0o644)
 			}
@@ -280,6 +277,11 @@ func runCheck(o *checkOpts) int {
 					rp.Status = "proved" // unknown on a satisfiability probe is not evidence of vacuity
 					rp.Solver = res.Solver + "(probe:" + res.Status + ")"
 				}
+				return
+			}
+			if rp.obl.Unsupported != "" && res.Status != "unsat" {
+				rp.Status = "error"
+				rp.res.Output = "reachable unsupported construct: " + rp.obl.Unsupported
 				return
 			}
 			switch res.Status {
